@@ -51,8 +51,6 @@ func (e *Engine) renderVC(o *Obligation) (string, error) {
 	var sb strings.Builder
 	sb.WriteString("(set-option :produce-models true)\n(set-logic ALL)\n")
 	fmt.Fprintf(&sb, "; obligation %s\n; kind %s  at %s\n", o.Name, o.Kind, o.Pos)
-	forms := e.spec.closure(used)
-	defined := map[string]bool{}
 	sortsNeeded := map[string]bool{}
 	for _, si := range syms {
 		sortTokens(si.Res, sortsNeeded)
@@ -60,6 +58,15 @@ func (e *Engine) renderVC(o *Obligation) (string, error) {
 			sortTokens(a, sortsNeeded)
 		}
 	}
+	for _, h := range o.Hyps {
+		boundSorts(h, sortsNeeded)
+	}
+	boundSorts(o.Goal, sortsNeeded)
+	for s := range sortsNeeded {
+		used[s] = true
+	}
+	forms := e.spec.closure(used)
+	defined := map[string]bool{}
 	for _, f := range forms {
 		for _, d := range f.defines {
 			defined[d] = true
@@ -255,4 +262,13 @@ func (e *Engine) dischargeAll(obls []*Obligation, dir string, timeoutS int, thor
 	}
 	close(jobs)
 	wg.Wait()
+}
+
+func boundSorts(t *Term, out map[string]bool) {
+	for _, b := range t.Bound {
+		sortTokens(b.S, out)
+	}
+	for _, a := range t.Args {
+		boundSorts(a, out)
+	}
 }
